@@ -2,7 +2,7 @@
 import ast
 import re
 
-from ..core import AnalysisError, norm, short, walk_local, parent_chain, reaching_assign
+from ..core import AnalysisError, norm, short, walk_local, parent_chain, reaching_assign, copy_tree
 from . import register
 from ..inline import inlined_view
 
@@ -310,7 +310,19 @@ def _q2_q4(ctx, R):
                 R.bad("Q2", "%s|regex not fullmatch" % vm.key, vm.loc(c), "the regex branch uses `%s`; is_re must be a full match of the value (alternations and prefixes otherwise match too much)" % short(c, 60))
             else:
                 R.ok("Q2", "regex branch uses re.fullmatch", vm.loc(c))
-                if len(c.args) >= 2 and (norm(c.args[0]) != "pattern" or norm(c.args[1]) != "value"):
+                def carrier(e, depth=0):
+                    """the one parameter an operand is made of, read through locals bound once; None when a call or a second name is involved
+                    (`text = "" if value is None else value` carries `value`; `value.lower()` does not)"""
+                    if isinstance(e, ast.Name) and depth < 3:
+                        ds = [a for a in walk_local(vm.node) if isinstance(a, (ast.Assign, ast.AnnAssign)) and a.value is not None
+                              and norm(a.targets[0] if isinstance(a, ast.Assign) else a.target) == e.id]
+                        if len(ds) == 1 and e.id not in vm.params:
+                            return carrier(ds[0].value, depth + 1)
+                    if any(isinstance(z, ast.Call) for z in ast.walk(e)):
+                        return None
+                    names = {z.id for z in ast.walk(e) if isinstance(z, ast.Name)}
+                    return next(iter(names)) if len(names) == 1 else None
+                if len(c.args) >= 2 and (carrier(c.args[0]) != "pattern" or carrier(c.args[1]) != "value"):
                     R.bad("Q2", "%s|regex operands" % vm.key, vm.loc(c), "re.fullmatch is called with (%s, %s), expected (pattern, value)" % (norm(c.args[0]), norm(c.args[1])))
             flags = None
             if len(c.args) >= 3:
@@ -320,9 +332,34 @@ def _q2_q4(ctx, R):
                     flags = k.value
             ok_flags = False
             if isinstance(flags, ast.Name):
-                defs = [a for a in walk_local(vm.node) if isinstance(a, ast.Assign) and norm(a.targets[0]) == flags.id]
+                defs = [a for a in walk_local(vm.node) if isinstance(a, (ast.Assign, ast.AnnAssign)) and a.value is not None
+                        and norm(a.targets[0] if isinstance(a, ast.Assign) else a.target) == flags.id]
                 if len(defs) == 1:
                     flags = defs[0].value
+            if isinstance(flags, ast.Call) and isinstance(flags.func, ast.Name) and flags.func.id in pm.functions and not flags.keywords:
+                # a private helper that is one expression of its parameters: read with the actuals in place
+                h_ = pm.functions[flags.func.id]
+                hb = [st for st in h_.node.body if not (isinstance(st, ast.Expr) and isinstance(st.value, ast.Constant))]
+                # (the loader writes `return a if c else b` as `if c: return a` / `else: return b`)
+                if len(hb) == 1 and isinstance(hb[0], ast.If) and len(hb[0].body) == 1 and len(hb[0].orelse) == 1 \
+                        and all(isinstance(z, ast.Return) and z.value is not None for z in (hb[0].body[0], hb[0].orelse[0])):
+                    hb = [ast.Return(value=ast.IfExp(test=hb[0].test, body=hb[0].body[0].value, orelse=hb[0].orelse[0].value))]
+                if len(hb) == 1 and isinstance(hb[0], ast.Return) and hb[0].value is not None and len(flags.args) == len(h_.params):
+                    sub = {prm: a for prm, a in zip(h_.params, flags.args)}
+
+                    class _S(ast.NodeTransformer):
+                        def visit_Name(self, n):
+                            return copy_tree(sub[n.id]) if n.id in sub else n
+                    flags = _S().visit(copy_tree(hb[0].value))
+            if flags is not None:
+                # module-level names for the flag values (`_IGNORE = re.IGNORECASE`) are read as what they name
+                class _M(ast.NodeTransformer):
+                    def visit_Name(self, n):
+                        v = pm.assigns.get(n.id)
+                        if isinstance(v, ast.Attribute) and norm(v).startswith("re.") or (isinstance(v, ast.Constant) and isinstance(v.value, int)):
+                            return copy_tree(v)
+                        return n
+                flags = _M().visit(copy_tree(flags))
             if isinstance(flags, ast.IfExp):
                 t, a, b = norm(flags.test), norm(flags.body), norm(flags.orelse)
                 if (t == "is_case" and a == "0" and "IGNORECASE" in b) or (t in ("not is_case", "is_case is False") and "IGNORECASE" in a and b == "0"):
@@ -376,6 +413,42 @@ def _q2_q4(ctx, R):
                 R.ok("Q2", "regex flags: IGNORECASE iff not is_case", vm.loc(c))
             else:
                 R.bad("Q2", "%s|regex flags" % vm.key, vm.loc(c), "the regex branch passes flags `%s`; it must be re.IGNORECASE exactly when is_case is false" % (norm(flags) if flags is not None else "none"))
+    # a regular expression is matched as a regular expression only: from the branch taken when is_re is true no glob matcher can be reached
+    # (an `if is_re:` block whose every path returns, or an if / elif chain — not a block that falls through when the expression does not match)
+    from ..cfg import cfg_of, node_exprs
+    cfg = cfg_of(vm.node)
+    for t in cfg.nodes:
+        if t.kind != "test" or not isinstance(t.ast, ast.If):
+            continue
+        tt = t.ast.test
+        want = None
+        if norm(tt) in ("is_re", "is_re is True", "is_re == True"):
+            want = "true"
+        elif norm(tt) in ("not is_re", "is_re is False", "is_re == False"):
+            want = "false"
+        if want is None:
+            continue
+        n += 1
+        seen, todo, hit = set(), [s_ for s_, lab in t.succ if lab == want], None
+        while todo and hit is None:
+            x = todo.pop()
+            if x.id in seen:
+                continue
+            seen.add(x.id)
+            if x.ast is not None and x.kind not in ("entry", "exit"):
+                exprs, _ = node_exprs(x)
+                for e in exprs:
+                    for c in ast.walk(e):
+                        if isinstance(c, ast.Call) and norm(c.func) in ("fnmatch.fnmatch", "fnmatch.fnmatchcase", "fnmatchcase", "fnmatch.filter"):
+                            hit = c
+            if hit is None:
+                todo.extend(s_ for s_, lab in x.succ if s_ is not cfg.raise_exit)
+        if hit is not None:
+            R.bad("Q2", "%s|regex falls through to glob" % vm.key, vm.loc(hit),
+                  "with is_re=True the matcher can reach `%s`: a regular expression that does not match is tried again as a shell wildcard, so "
+                  "regex queries return names the expression does not match" % short(hit, 50))
+        else:
+            R.ok("Q2", "a regular expression is never re-tried as a wildcard", vm.loc(t.ast))
     R.count("matcher calls in _value_matches_pattern", n)
     R.floor("matcher calls in _value_matches_pattern", 3)
     # Q4
@@ -392,12 +465,17 @@ def _q2_q4(ctx, R):
         if isinstance(e, ast.Name) and depth < 3 and e.id in ia.module.assigns:
             return charset(ia.module.assigns[e.id], depth + 1)
         return None
-    for c in walk_local(ia.node):
+    # (a scan moved into a private helper of the module is part of the function: `return not _has_wildcard(pattern)`)
+    ia_nodes = list(walk_local(ia.node))
+    for c in list(ia_nodes):
+        if isinstance(c, ast.Call) and isinstance(c.func, ast.Name) and c.func.id in pm.functions and c.func.id != ia.name:
+            ia_nodes += list(walk_local(pm.functions[c.func.id].node))
+    for c in ia_nodes:
         if isinstance(c, ast.Compare) and len(c.ops) == 1 and isinstance(c.ops[0], (ast.In, ast.NotIn)):
             # `char in WILDCARDS` for the characters of the pattern, or `w in pattern` for the wildcards w
             cs = charset(c.comparators[0])
             if cs is None and isinstance(c.left, ast.Name):
-                for g in walk_local(ia.node):
+                for g in ia_nodes:
                     if isinstance(g, (ast.For, ast.comprehension)) and norm(g.target) == c.left.id:
                         cs = charset(g.iter)
             if cs is not None:
